@@ -522,3 +522,15 @@ mod test {
 		assert_eq!(expected_out, encode_int_be_base32(input).collect::<Vec<Fe32>>());
 	}
 }
+
+#[cfg(feature = "_verif")]
+#[allow(missing_docs)]
+pub mod verif_hooks {
+	use super::*;
+	pub fn encode_int_be_base32(int: u64) -> impl ExactSizeIterator<Item = Fe32> {
+		super::encode_int_be_base32(int)
+	}
+	pub fn encoded_int_be_base32_size(int: u64) -> usize {
+		super::encoded_int_be_base32_size(int)
+	}
+}
